@@ -100,7 +100,7 @@ def check(ctx, rep):
             rep.ob("R-SWEEP", "shutdown: the delegate is shut down after the sweep with the caller's arguments", ok and len(dsh) == 1 and all(c.seq < dsh[0].seq for c in cancels), why, where_of(sh, dsh[0].node), trace_of(p))
         else:
             rep.ob("R-SWEEP", "shutdown: the delegate is shut down after the sweep with the caller's arguments", False, "no delegate shutdown on the first-shutdown path", where_of(sh), trace_of(p))
-    rep.require(nfirst >= 2, "CancelOnShutdownExecutor.shutdown: first-shutdown paths not found")
+    rep.ob("R-SWEEP", "shutdown: the call that flips the flag performs the sweep", nfirst >= 1, "no path of shutdown() on which the flag is flipped goes on to snapshot and cancel the tracked futures", where_of(sh))
 
 
 def _gate_only(callee, ev, path):
